@@ -439,6 +439,18 @@ def r54(ctx: Ctx) -> RuleReport:
         rep.undecided('penman.graph:Graph.__isub__: the reset is guarded by `self._top not in <remaining variables>`', fi.loc(r), str(sorted(facts)))
         return rep
     rep.ok('penman.graph:Graph.__isub__: the reset is guarded by `self._top not in <remaining variables>`', fi.loc(r))
+    # ... and the test is made on every path of a graph difference: no other condition decides whether the top is looked at
+    tests = [nd.id for nd in cfg.nodes if nd.kind == 'cond' and norm(nd.ast).replace(' ', '') in (f'self._topnotin{setname}', f'self._topin{setname}')]
+    rets_self = [nd.id for nd in cfg.nodes if nd.kind == 'stmt' and isinstance(nd.ast, ast.Return) and nd.ast.value is not None and norm(nd.ast.value) == 'self']
+    if tests and rets_self:
+        skip = cfg.path_avoiding([(cfg.entry, None)], set(rets_self), lambda nd: nd.id in tests)
+        if skip:
+            conds = [norm(cfg.nodes[x].ast)[:40] for x in skip if cfg.nodes[x].kind == 'cond'][-3:]
+            rep.violation('penman.graph:Graph.__isub__: the top is examined in every difference', fi.loc(cfg.nodes[tests[0]].ast),
+                          f'`return self` can be reached without the test `{norm(cfg.nodes[tests[0]].ast)}` (through {conds}): on that path an explicit top that occurs in no '
+                          f'remaining triple is kept - e.g. when nothing was removed - so whether the top is dropped depends on something other than the remaining triples')
+        else:
+            rep.ok('penman.graph:Graph.__isub__: the top is examined in every difference', fi.loc(cfg.nodes[tests[0]].ast))
     sv = single_def(ctx, fi, ast.Name(id=setname, ctx=ast.Load()))
     # which slots of the remaining triples feed the set?
     slots: Set[int] = set()
@@ -1200,6 +1212,31 @@ def r32(ctx: Ctx) -> RuleReport:
                                                       for f, pol in facts_ex(ctx, fi, u))]
                     if uses and len(tested) == len(uses):
                         proven = f'every use of `{res}` is dominated by a membership test of {res}[0]'
+                        # ... against ALL variables of the graph: a collection that only holds the variables with an instance triple is too narrow
+                        sets_ = set()
+                        for u in uses:
+                            for f, pol in facts_ex(ctx, fi, u):
+                                for pre in (f'{res}[0] in ', f'{res}[0] not in '):
+                                    if f.startswith(pre):
+                                        sets_.add(f[len(pre):])
+                        for S_ in sorted(sets_):
+                            if not S_.isidentifier():
+                                continue
+                            sv = [x for x in ctx.cg.local_assigns(fi).get(S_, []) if isinstance(x, ast.AST)]
+                            if any(isinstance(x, ast.Call) and isinstance(x.func, ast.Attribute) and x.func.attr == 'variables' for x in sv):
+                                continue
+                            fills = [n for n in walk_local(fi.node) if (isinstance(n, ast.Assign) and isinstance(n.targets[0], ast.Subscript) and norm(n.targets[0].value) == S_)
+                                     or (isinstance(n, ast.Call) and isinstance(n.func, ast.Attribute) and n.func.attr in ('add', 'setdefault') and norm(n.func.value) == S_)]
+                            only_instances = fills and all(any(pol and 'CONCEPT_ROLE' in f and '==' in f or (not pol and 'CONCEPT_ROLE' in f and '!=' in f)
+                                                               for f, pol in facts_ex(ctx, fi, n)) for n in fills)
+                            if only_instances:
+                                rep.violation(key + ' (which variables count)', fi.loc(c), f'`{res}[0]` is tested against `{S_}`, which is filled from the instance triples only: a variable '
+                                              f'that has no instance triple (a node without concept in a graph built from plain triples, a concept-less top) is not in it, so a '
+                                              f'relation node that points from such a variable is never dereified although its source is a node of the graph')
+                                proven = None
+                                break
+                        if proven is None:
+                            continue
                     elif uses:
                         u = next(x for x in uses if x not in tested)
                         rep.violation(key, fi.loc(u), f'the source of the triple returned by {ps[0].qualname} is a target cast to Variable; `{res}` is '
